@@ -81,6 +81,9 @@ def main():
     order = [('status', r'get_registered_status \(repository, namespace, version, allow_lazy,'),
              ('return-registered', r'if \(typelib\)\s*return typelib;'),
              ('conflict', r'if \(version_conflict != NULL\)'),
+             ('promote-lazy', r'if \(is_lazy\)\s*\{(?:\s*/\*.*?\*/)?\s*typelib = g_hash_table_lookup \(repository->priv->lazy_typelibs, '
+                              r'namespace\);\s*if \(!register_internal \(repository,\s*g_irepository_get_typelib_path '
+                              r'\(repository, namespace\),\s*FALSE, typelib, error\)\)\s*return NULL;\s*return typelib;\s*\}'),
              ('explicit', r'find_namespace_version \(namespace, version,\s*search_path, &path\)'),
              ('tmp-version-requested', r'tmp_version = g_strdup \(version\);'),
              ('latest', r'find_namespace_latest \(namespace, search_path,\s*&tmp_version, &path\)'),
@@ -90,7 +93,7 @@ def main():
              ('register', r'register_internal \(repository, path, allow_lazy,')]
     pos = 0
     for tok, pat in order:
-        m = re.compile(pat).search(req, pos)
+        m = re.compile(pat, re.S).search(req, pos)
         if not m:
             shape.append('MISSING:' + tok)
         else:
@@ -101,9 +104,10 @@ def main():
     for tok, pat in [('eager-first', r'g_hash_table_lookup \(repository->priv->typelibs, namespace\)'),
                      ('eager-check', r'return check_version_conflict \(typelib, namespace, version, version_conflict\)'),
                      ('lazy-second', r'g_hash_table_lookup \(repository->priv->lazy_typelibs, namespace\)'),
-                     ('not-lazy-null', r'if \(!allow_lazy\)\s*return NULL;'),
+                     ('not-lazy-conflict-null', r'if \(!allow_lazy\)\s*\{(?:\s*/\*.*?\*/)?\s*check_version_conflict \(typelib, '
+                                                r'namespace, version, version_conflict\);\s*return NULL;\s*\}'),
                      ('lazy-check', r'return check_version_conflict \(typelib, namespace, version, version_conflict\)')]:
-        m = re.compile(pat).search(st, pos)
+        m = re.compile(pat, re.S).search(st, pos)
         shape.append(tok if m else 'MISSING:' + tok)
         pos = m.end() if m else pos
     cv = body_of(src, 'compare_version')
@@ -128,6 +132,8 @@ def main():
                                 r'&is_lazy, &version_conflict\)\)\s*return namespace;'),
                      ('conflict', r'if \(version_conflict != NULL\)\s*\{\s*g_set_error \(error, G_IREPOSITORY_ERROR,\s*'
                                   r'G_IREPOSITORY_ERROR_NAMESPACE_VERSION_CONFLICT,'),
+                     ('promote-lazy', r'if \(is_lazy\)\s*typelib = g_hash_table_lookup \(repository->priv->lazy_typelibs, '
+                                      r'namespace\);'),
                      ('register', r'return register_internal \(repository, "[^"]*",\s*allow_lazy, typelib, error\);')]:
         m = re.compile(pat).search(ld, pos)
         toks.append(tok if m else 'MISSING:' + tok)
